@@ -209,7 +209,8 @@ def gen_resource(rng, g, d):
                 props[key] = {"Fn::If": [g.cname(), g.s(d), {"Ref": "AWS::NoValue"}]}
             else:
                 props[key] = g.s(d)
-        r = {"Type": rng.choice(["AWS::SNS::Topic", "Custom::Thing", "AWS::Foo::Bar"]), "Properties": props}
+        r = {"Type": rng.choice(["AWS::SNS::Topic", "Custom::Thing", "AWS::Foo::Bar", "AWS::SNS::Topic", "Custom::Thing",
+                                 "{{resolve:ssm:/p/a:1}}", "TRUE", "AWS::NoValue"]), "Properties": props}
     if rng.random() < 0.35:
         r["Condition"] = g.cname()
     if rng.random() < 0.15:
